@@ -293,7 +293,9 @@ TECH_ADD11 = {
  "C14": "no package-level slice or map stored into the model",
  "C20": "no package-level slice or map stored into the model",
  "C01": "run text is never the Data of an html.Token",
- "C02": "a pending cue identifier is forgotten once a cue has taken it",
+ "C02": "a pending cue identifier is forgotten once a cue has taken it, and is given only zero or a parsed number",
+ "C07": "Add's delete-and-rewind rule also runs here",
+ "C12": "no return of Merge before the argument has been taken",
 }
 TEXT_ADD11 = {
  "C03": " Frame counts are not multiplied by a frame length already rounded to whole nanoseconds.",
